@@ -77,7 +77,7 @@ class HandoverServer(threading.Thread):
 
                     try:
                         list(ndef.message_decoder(request, 'strict', {}))
-                    except ndef.DecodeError:
+                    except (ndef.DecodeError, ValueError):
                         continue  # need more data
 
                     response = self._process_request_data(request)
@@ -99,7 +99,7 @@ class HandoverServer(threading.Thread):
         log.debug("<<< %s", binascii.hexlify(octets).decode())
         try:
             records = list(ndef.message_decoder(octets, 'relax'))
-        except ndef.DecodeError as error:
+        except (ndef.DecodeError, ValueError) as error:
             log.error(repr(error))
             return b''
 
